@@ -504,6 +504,14 @@ def runOp (s : Sexp) : String :=
           | none => "bad-op")
        | _ => "builderr")
     | _, _, _, _ => "bad-op"
+  -- (mut cfg T tag V1 V2): Marshal, change the variable in place, Marshal again: two pure encodings
+  | .list [.atom "mut", cfgS, td, .atom tag, v1, v2] =>
+    match parseCfg cfgS, parseTyDef td, parseHexStr tag, parseVal v1, parseVal v2 with
+    | some c, some d, some t, some v1, some v2 =>
+      (match buildTop c d t with
+       | .ok ty => s!"ok {hexOf (marshal ty (coerceIn ty v1))} {hexOf (marshal ty (coerceIn ty v2))}"
+       | _ => "builderr")
+    | _, _, _, _, _ => "bad-op"
   | .list [.atom "rt", cfgS, td, .atom tag, v] =>
     match parseCfg cfgS, parseTyDef td, parseHexStr tag, parseVal v with
     | some c, some d, some t, some v =>
